@@ -349,3 +349,10 @@ def r4(c):
     sp = P.fn('rodbus::server::spawn_tls_server_task_impl')
     cc = one(sp.calls('rodbus::server::create_tls_server_task_impl'), 'create_tls_server_task_impl')
     c.ob('ctor/spawn-impl', q.is_name(sp, cc.args[3], 'auth_handler') and q.is_name(sp, cc.args[4], 'tls_config'), 'spawn_*_impl forwards auth handler and TLS config', '', cc.loc())
+
+
+@rule('C09', 'R09.5', 'the C ABI hands the configured minimum version and certificate mode to the Rust configuration unchanged (C18/R18.1 conversion tables)',
+      needs=lambda P: 'rodbus_ffi' in P.crates and HAS_TLS(P))
+def r5(c):
+    from rules import c18
+    c18.r1(c)
